@@ -209,6 +209,20 @@ def prepare(tier: str, seed: int) -> None:
                 SHAPES.append({"expr": sh, "holes": hs, "family": f"skeleton k={k}", "skeleton": repr(sk), "top": top})
 
 
+    # unary operators over every small skeleton with a literal as the leftmost leaf: a sign / keyword that is glued to a
+    # following literal, or hoisted into it, changes the tree
+    firsts = [("Int", "5"), ("Float", "1.5"), ("Date", "2019-01-01"), ("Time", "10:30:00"), ("DateTime", "2020-01-01T10:00:00Z"),
+              ("Duration", "P1D"), ("GUID", gen.LIT_SAMPLE["GUID"]), ("Int", "-5"), ("Str", "s"), ("Bool", "true"), ("Null",)]
+    for k in (1, 2):
+        for sk in c05.skeletons(k):
+            if "'U'" not in repr(sk):
+                continue
+            for first in firsts:
+                li = itertools.chain([first], itertools.cycle([("Id", "a", ()), ("Int", "2")]))
+                sh, hs = gen.renumber(c05.to_shape(sk, li))
+                SHAPES.append({"expr": sh, "holes": hs, "family": "unary x literal-first", "skeleton": repr(sk) + f" first={first[-1]}", "top": None})
+
+
 def main() -> int:
     run = Run(PID, "model_checking")
     run.encode("odata_query.roundtrip.AstToODataVisitor (all visit_* and _visit_and_paren_if_precedence_lower)",
@@ -219,6 +233,8 @@ def main() -> int:
     run.bounds = {"skeletons": "every binary/unary/in skeleton with <= 2 (quick) / <= 3 (thorough) operator nodes, operators symbolic",
                   "explicit shapes": "all literal kinds incl. boundary spellings, singleton / nested lists, namespaces, paths to depth 3, "
                                      "calls with 0..4 arguments, 1..3 named parameters, lambdas incl. nested and without body, unary chains",
+                  "unary x literal-first": "every skeleton with <= 2 operator nodes that contains a unary operator, leftmost leaf over "
+                                           "11 literal spellings (all kinds that start with a digit or a sign), operators symbolic",
                   "string contents": "symbolic str, len <= 3, any code points (leaf lemma)", "conditions": len(SHAPES) + 3}
     run.outside = ["trees with more operator nodes", "string contents longer than 3 characters",
                    "ASTs outside the parser's image (e.g. Attribute whose owner is a call)"]
@@ -232,8 +248,13 @@ def main() -> int:
         items.append(Item(f"rt{i}", params, pre, f"check({i}, {argt})",
                           describe={k: sh[k] for k in ("skeleton", "top") if k in sh} or {"shape": sh["expr"]}, family=sh["family"]))
     for i, sh in enumerate(SHAPES):
-        if not sh["holes"] or len(sh["holes"]) > 2 or (quick and i % 3):
+        if not sh["holes"] or len(sh["holes"]) > 2 or (quick and i % 3) or sh["family"] == "unary x literal-first":
             continue
+        dom = 1
+        for h in sh["holes"]:
+            dom *= len(h[2]) if h[0] == "#" else 1
+        if quick and dom > 15:
+            continue        # quick: the two instantiations square the case split; the wide ones run in the thorough tier
         params, pre, names = gen.signature(sh["holes"])
         p2, pre2, n2 = gen.signature([(h[0], h[1] + len(sh["holes"])) + tuple(h[2:]) for h in sh["holes"]])
         items.append(Item(f"reuse{i}", params + ", " + p2, f"({pre}) and ({pre2})",
